@@ -122,7 +122,7 @@ static int ri_dyn_header(rinf_t *r, uint8_t *l, int *pnlen, int *pndist)
 static int rinflate(rinf_t *r)
 {
 	int last;
-	r->err = 0; r->outlen = 0; r->nblocks = r->nmatch = r->nlit = 0; r->maxdist = 0; r->reach_before_mark = r->reach_before_start = 0; r->saw_final = 0; r->nstored = r->nfixed = r->ndyn = 0; r->maxcodelen_lit = r->maxcodelen_dist = 0;
+	r->err = 0; r->outlen = 0; r->nblocks = r->nmatch = r->nlit = 0; r->maxdist = 0; r->reach_before_mark = r->reach_before_start = 0; r->saw_final = 0; r->nstored = r->nfixed = r->ndyn = 0; r->maxcodelen_lit = r->maxcodelen_dist = 0; r->max_group_bits = r->last_lit_bits = 0; r->prev_lit = 0; r->groups_over_56 = 0;
 	do {
 		size_t save = r->bitpos;
 		if (r->prefix_mode && (r->bitpos + 7) / 8 >= r->inlen && r->bitpos + 3 > r->inlen * 8) { r->end_bit = save; return 1; }
